@@ -16,4 +16,6 @@ PROPS = {
     "C12": dict(pkg="c12", run="^TestC12$", shards=8, timeout_quick=600, timeout_thorough=2400, net=112),
     "C02": dict(pkg="c02", run="^TestC02$", shards=8, timeout_quick=600, timeout_thorough=2400, net=102),
     "C03": dict(pkg="c03", run="^TestC03$", shards=8, timeout_quick=600, timeout_thorough=2400, net=103),
+    "C15": dict(pkg="c15", run="^TestC15$", shards=8, timeout_quick=600, timeout_thorough=2400, net=115),
+    "C20": dict(pkg="c20", run="^TestC20$", shards=4, timeout_quick=600, timeout_thorough=2400, net=120),
 }
